@@ -3766,26 +3766,26 @@ class Sizes(Monitor):
 
 FAMILIES = [TreeIds, TsIds, Positions, Stats, Tables, MapMutations, RawTables, Sequences, Arrays, BadState, Indexes, Sizes]
 NOT_COVERED = [
-    "PROVED is only the guard logic of the entry points modelled in coq/theories/C09/Guards.v; memory safety "
-    "of the compiled C (heap layout, UB in unmodelled code, allocator failure paths) is MONITORED under "
+    "PROVED is only the guard logic / capacity arithmetic of the entry points modelled in coq/theories/C09/Guards*.v; "
+    "memory safety of the compiled C (heap layout, UB in unmodelled code, allocator failure paths) is MONITORED under "
     "ASan+UBSan on the generated call sequences, not proved",
-    "ids in [num_rows, max_rows) that index table COLUMNS read allocated-but-unused capacity: ASan cannot see "
-    "these (only the guard model can); per-node arrays allocated with exactly num_nodes elements are visible",
-    "monitored only, no guard model: statistics (sample sets / indexes / windows beyond check_sample_sets and "
-    "check_windows), ld_matrix, pair_coalescence_*, genetic_relatedness_*, keep/delete_intervals, decapitate, "
-    "split_edges, delete_older, trim, sort(edge_start), fromdict / set_columns offsets of tables other than "
-    "sites/mutations, union(check_shared_equality=True), count_topologies, newick, kc/rf distance, "
-    "TableCollectionIndexes with arbitrary arrays, all table-collection methods on arbitrary tables",
-    "not monitored: drawing (draw_svg, draw_text), CLI, haplotype_matching (_tskit.LsHmm / matrices), "
-    "tskit.load / dump of corrupted files (property C10), metadata codecs (C12), legacy formats.py, "
-    "ts.pca, general_stat with user functions that misbehave (raise / return wrong shapes beyond one case), "
-    "multi-threaded calls (num_threads > 0), objects shared between threads, pickling of Tree objects, "
-    "the lwt_interface example module, numpy arrays with exotic strides / non-contiguous memory beyond 2-D "
-    "reshapes, ids beyond 2^64, inputs larger than ~10 nodes (no size-dependent paths such as block "
-    "reallocation of >1024 rows)",
+    "ids in [num_rows, max_rows) that index table COLUMNS read allocated-but-unused capacity, and small overflows of "
+    "numpy-owned buffers land in numpy's small-block cache: ASan cannot see either (the out-of-range / wrong-length "
+    "oracles and the guard models do); per-node arrays allocated with exactly num_nodes elements are visible",
+    "monitored only, no guard model: the bodies of the statistics (general_stat, divergence_matrix, relatedness "
+    "vector/matrix, pair_coalescence_*), keep/delete_intervals, decapitate, split_edges, trim, sort(edge_start), "
+    "union(check_shared_equality=True), newick, kc/rf distance, reference_sequence / metadata(_schema) setters, "
+    "IdentitySegments accessors, alignments / haplotypes arguments, the grow-by-doubling buffers exercised by the "
+    "`sizes` family (only two_site `sites` and Variant alt_samples have a capacity theorem), every table-collection "
+    "method on arbitrary tables other than the index check",
+    "not monitored: drawing (draw_svg, draw_text), CLI, haplotype_matching (_tskit.LsHmm / matrices), tskit.load of "
+    "corrupted files (property C10), metadata codecs (C12), legacy formats.py, ts.pca, general_stat with misbehaving "
+    "user functions beyond wrong output shapes, multi-threaded calls (num_threads > 0), objects shared between "
+    "threads, pickling of Tree objects, the lwt_interface example module, ids beyond 2^64, inputs larger than 1025 "
+    "samples / rows (size boundaries 63..129 in quick, up to 1025 in thorough)",
     "allocation-failure paths (TSKIT_VERIF_MALLOC_FAIL_AT hook of the design) are not enumerated",
-    "the low-level _tskit classes are exercised only through the public classes, plus three direct calls "
-    "(ll_table.get_row, ll_table.extend, _ll_tree.map_mutations)",
+    "the low-level _tskit classes are exercised only through the public classes, plus direct calls of "
+    "ll_table.get_row / extend / keep_rows, _ll_tree.map_mutations and the low-level metadata_schema setters",
 ]
 
 
